@@ -23,15 +23,19 @@ type FaultBody struct {
 	Cancel context.CancelFunc
 	OnRead func(n int, err error) // optional observer / yield point
 
-	off      int
-	Failed   bool // the fault's error was returned to the reader
-	CutClean bool // a clean EOF was returned before the end of Data
-	SawEOF   bool // the reader saw io.EOF at the real end
-	Closed   bool
-	Reads    int
+	off        int
+	silentDone bool
+	Failed     bool // the fault's error was returned to the reader
+	CutClean   bool // a clean EOF was returned before the end of Data
+	SawEOF     bool // the reader saw io.EOF at the real end
+	Closed     bool
+	Reads      int
 }
 
 func (b *FaultBody) limit() int {
+	if b.Fault != nil && (b.Fault.Kind == "cancel-silent" || b.Fault.Kind == "cancel-at-eof") {
+		return len(b.Data)
+	}
 	if b.Fault != nil && b.Fault.At < len(b.Data) {
 		if b.Fault.At < 0 {
 			return 0
@@ -54,9 +58,21 @@ func (b *FaultBody) Read(p []byte) (n int, err error) {
 	if b.Closed {
 		return 0, errors.New("http: invalid Read on closed Body")
 	}
+	if b.Fault != nil && b.Fault.Kind == "cancel-silent" && !b.silentDone && b.off >= b.Fault.At {
+		// the context is cancelled while the stream itself stays healthy
+		b.silentDone = true
+		if b.Cancel != nil {
+			b.Cancel()
+		}
+	}
 	lim := b.limit()
 	if b.off >= lim {
-		if b.Fault != nil && (b.Fault.At <= len(b.Data)) {
+		if b.Fault != nil && b.Fault.Kind == "cancel-at-eof" && b.Cancel != nil {
+			// the client goes away right after its last byte
+			b.Cancel()
+			b.silentDone = true
+		}
+		if b.Fault != nil && (b.Fault.At <= len(b.Data)) && b.Fault.Kind != "cancel-silent" && b.Fault.Kind != "cancel-at-eof" {
 			switch b.Fault.Kind {
 			case "clean-eof":
 				if lim < len(b.Data) {
@@ -103,6 +119,9 @@ func (b *FaultBody) Read(p []byte) (n int, err error) {
 }
 
 func (b *FaultBody) Close() error { b.Closed = true; return nil }
+
+// SilentCancel reports whether the context was cancelled without a stream error.
+func (b *FaultBody) SilentCancel() bool { return b.silentDone }
 
 // Delivered is the number of bytes handed to the reader.
 func (b *FaultBody) Delivered() int { return b.off }
